@@ -46,7 +46,8 @@ CLAIMED = {
             'written 9x6 (thorough + 17x9) screen.'),
     'C10': ('4 C10', 'display() output against a reference rendering over every arrangement of narrow/wide/placeholder/'
             'combining/absent cells; purity as a relational lemma decided by z3 over two runs of every operation from '
-            'states that differ only in an arbitrary symbolic set of materialised blanks (what display() does).'),
+            'states that differ only in an arbitrary symbolic set of materialised blanks (what display() does): the two '
+            'results must agree on everything observable and on what is kept in storage beyond the screen.'),
     'C14': ('4 C14', 'save_cursor/restore_cursor single steps with a symbolic stack (depth 0..2, symbolic saved positions, '
             'renditions, charset state, DECOM/DECAWM) on a symbolic geometry; z3 decides exact-copy push, LIFO pop, '
             'clamping into screen and region, one-way re-enabling of DECOM/DECAWM, and that every other operation leaves '
@@ -92,7 +93,8 @@ CLAIMED = {
     'C01': ('4 C01', 'Every panic edge of the MIR (overflow asserts, index/unwrap/expect, explicit panics, mutex re-lock) and '
             'the step budget are path outcomes; z3 shows none is feasible (a) for every listener method, resize and '
             'display from arbitrary symbolic well-formed states, with well-formedness re-established (induction over '
-            'histories), (b) for the real recogniser+dispatchers+Screen on symbolic character strings and (c) for the real '
+            'histories; also the DECCOLM switches on never-written screens of 132..256 (thorough ..512) columns and the '
+            'geometry-dependent operations on a sparsely written 9x6 screen), (b) for the real recogniser+dispatchers+Screen on symbolic character strings and (c) for the real '
             'byte parser on symbolic bytes in every chunking; display() and further input are executed on every path.'),
 }
 
